@@ -10,6 +10,7 @@ C02-t    script tag tables agree: every tag dispatched to the Indic shaper is in
 """
 import borrows
 import indexing
+import overflow
 import loops
 import reach
 import recursion
@@ -256,6 +257,91 @@ def c02_s(run, fx):
         run.ok(rule, "cached_lookups is never shrunk")
 
 
+ATTACH_VARIANTS = ("MarkAnchor", "MarkOverprint", "CursiveAnchor")
+
+
+def c02_f(run, fx, floors=True):
+    rule = "C02-f"
+    run.rule(rule, "every attachment index stored in a gpos::Placement (MarkAnchor.0, MarkOverprint.0, CursiveAnchor.0) is, at the point of "
+                   "construction, an index of the glyph buffer the placement is stored into: the same SSA value indexes that buffer under a "
+                   "bounds check that dominates the construction, or it is an enumerate() position / the constant 0 of a loop over that "
+                   "buffer, or it is copied from an existing Placement; the buffer is a slice and cannot shrink afterwards")
+    import indexing
+    n = 0
+    for b in fx.bodies:
+        if b.exp:
+            continue
+        prov = None
+        for bi, blk in enumerate(b.blocks):
+            if not b.reachable(bi):
+                continue
+            for si, s_ in enumerate(blk["s"]):
+                if s_["k"] != "assign" or s_["rv"]["k"] != "agg" or s_["rv"].get("adt") != "gpos::Placement" or s_["rv"].get("vname") not in ATTACH_VARIANTS:
+                    continue
+                n += 1
+                if prov is None:
+                    prov = sym.Prov(b)
+                op = s_["rv"]["fields"][0]
+                term = sym.strip(prov.op(op))
+                where = "%s: Placement::%s" % (b.path, s_["rv"]["vname"])
+                why = attach_ok(fx, b, prov, bi, term, op)
+                if why:
+                    run.ok(rule, "%s: %s" % (where, why))
+                else:
+                    run.fail(rule, "attach:%s:%s" % (b.root, s_["rv"]["vname"]),
+                             "%s stores an attachment index (%s) that is not known to be an index of the glyph buffer: no dominating bounds-checked "
+                             "indexing with the same value, not an enumerate position, not copied from a Placement" % (where, sym.show(term)[:80]),
+                             b.loc(s_))
+    if floors:
+        run.floor(rule, "Placement constructions carrying an attachment index", n, 6)
+
+
+def attach_ok(fx, b, prov, bi, term, op):
+    nt = sym.norm(term)
+    # copied from an existing placement (combine): a field of a Placement variant
+    for x in sym.walk(term):
+        if x[0] == "variant" and x[2] in ATTACH_VARIANTS:
+            return "copied from an existing Placement::%s" % x[2]
+    # bounds-checked indexing with the same value dominating the construction
+    for bj, blk in enumerate(b.blocks):
+        t = blk["t"]
+        if t["k"] == "assert" and t["kind"] == "BoundsCheck" and b.reachable(bj) and len(t.get("ops") or []) >= 2:
+            if sym.norm(sym.strip(prov.op(t["ops"][1]))) == nt and b.dominates(t["target"], bi):
+                import indexing
+                recv = indexing.len_source(sym.strip(prov.op(t["ops"][0])))
+                rty = b.local_ty(recv[1]) if recv is not None and recv[0] in ("arg", "local") else ""
+                if "Info" in (rty or ""):
+                    return "the same value indexes the glyph buffer (%s) under a bounds check that dominates the construction" % rty
+    # multi-definition local: every definition is the constant 0 or an enumerate position
+    if term[0] == "local":
+        import reach
+        ds = b.defs().get(term[1], [])
+        kinds = []
+        for d in ds:
+            dt = sym.strip(reach.def_term(b, prov, d))
+            if dt[0] == "c" and dt[1] == 0:
+                kinds.append("0")
+            elif is_enum_pos(dt):
+                kinds.append("enumerate")
+            else:
+                return None
+        if kinds:
+            return "every definition is %s of the loop over the buffer" % " / ".join(sorted(set(kinds)))
+    if is_enum_pos(term):
+        return "an enumerate() position of the loop over the buffer"
+    return None
+
+
+def is_enum_pos(t):
+    """the .0 of an item produced by an iterator chain that contains enumerate() (and no map/zip re-packing after it)"""
+    if t[0] != "field" or t[2] not in (0, "0"):
+        return False
+    names = [(x[4] or x[1] or "") for x in sym.walk(t) if x[0] == "call"]
+    if not any(n.endswith("Iterator::enumerate") for n in names):
+        return False
+    return not any(n.endswith(("Iterator::map", "Iterator::zip", "Iterator::filter_map", "Iterator::scan")) for n in names)
+
+
 def check(run, fx, tier, floors=True):
     if floors or fx.body("layout::new_layout_cache") is not None:
         c02_s(run, fx)
@@ -267,4 +353,7 @@ def check(run, fx, tier, floors=True):
     c02_e(run, fx)
     loops.rule_loops(run, fx, "C02-g", floors=False, select=in_scope)
     indexing.rule_index(run, fx, "C02-i", floors, select=in_scope, floor_n=150)
+    overflow.rule_overflow(run, fx, "C02-o", floors, select=in_scope, floor_n=60)
     c02_t(run, fx)
+    if floors or fx.adt("gpos::Placement") is not None:
+        c02_f(run, fx, floors)
